@@ -1,8 +1,7 @@
 //go:build verif
 
 // Round 6, area K: the remaining small functions of internal/lg. Comment-only file.
-// LogFatal (log line, then os.Exit(1)) never returns and therefore cannot carry a contract (vacuity guard: a contract needs a reachable
-// return - notes area_r5I gap I1); it is inlined at every call site down to the os.Exit extern.
+// LogFatal (log line, then os.Exit(1)): `noreturn` contract in zz_contracts_r7_verif.go (round 7).
 
 package lg
 
